@@ -7,7 +7,7 @@ TRUSTED = BASE_TRUSTED + ["computational soundness (existence of a permutation w
 RULE = ("honest statements (N<=3 on p=23/2039/16-bit, N<=2 at 62 bits, N=1 at 2048 bits) and for each: every single-field "
         "mutation of the proof (each element/exponent replaced by neighbour, identity, generator, 0), every vector-length "
         "combination in {0..N+1}^5 for N<=2 (quick) / N<=3 (thorough), replays against different inputs/outputs/pk/generators/label, "
-        "mismatched |e'|, N=0, and the algebraic forgery family with omitted chain proofs (non-permutation matrix M=[[2,-1],[-1,2]]); "
+        "every per-ciphertext component altered one at a time at N in {20,37} (thorough: up to 130) on the 62-bit set; mismatched |e'|, N=0, and the algebraic forgery family with omitted chain proofs (non-permutation matrix M=[[2,-1],[-1,2]]); "
         "every decision compared with the Gallina verifier, which recomputes both challenges from the complete statement; "
         "at >=62 bits an accepted mutant is a failing input by itself")
 
@@ -23,8 +23,10 @@ def run(env):
     for fl in "BM":
         for p, ns in ((23, [1, 2, 3]), (2039, [2]), (65267, [2, 3] if not env.quick else [2])):
             for n in ns:
-                specs.append({"ctx": "%s:%d" % (fl, p), "n": n, "perm": None, "seed": "x:", "label": "x:6c62"})
+                specs.append({"ctx": "%s:%d" % (fl, p), "n": n, "perm": None, "seed": "x:", "label": label_pool(r, len(specs) + 1)})
         specs.append({"ctx": "%s:%d" % (fl, P62), "n": 2, "perm": None, "seed": "x:01", "label": "x:"})
+        specs.append({"ctx": "%s:%d" % (fl, P62), "n": 3, "perm": None, "seed": "x:02", "label": LABEL_POOL[7]})
+        specs.append({"ctx": "%s:%d" % (fl, P62), "n": 1, "perm": None, "seed": "x:03", "label": LABEL_POOL[3]})
         specs.append({"ctx": "%s:2048" % fl, "n": 1, "perm": None, "seed": "x:", "label": "x:aa"})
     items = shuf.make_statements(env, specs)
     live = shuf.prove(env, specs, items)
@@ -71,7 +73,8 @@ def run(env):
         add(sp, "replay-generators", True, gens=g2)
         g3 = list(sp["_gens"]); g3[0] = str((int(g3[0]) * g) % p)
         add(sp, "replay-generators-h0", True, gens=g3)
-        add(sp, "replay-label", True, label=sp.get("label", "x:") + "00")
+        for lv in (label_variants(sp.get("label", "x:")) if not ctx.endswith("2048") else [sp.get("label", "x:") + "00"]):
+            add(sp, "replay-label", True, label=lv)
         if n >= 2:
             add(sp, "swapped-outputs", True, out=list(reversed(sp["_out"])) if sp["_out"] != list(reversed(sp["_out"])) else o2)
             add(sp, "dup-output", True, out=[sp["_out"][0]] * n if len({str(x) for x in sp["_out"]}) > 1 else o2)
@@ -112,6 +115,26 @@ def run(env):
         # omitted chain proofs with otherwise honest proof
         m = copy.deepcopy(pf); m["t_hats"] = []
         add(sp, "no-chain-proofs", True, proof=wire.hx(wire.proof_bytes(fl, m)))
+    # larger statements: EVERY per-ciphertext component of an honest proof altered, one at a time (a verifier that
+    # evaluates its per-ciphertext equations in blocks / chunks / by zip must not lose a tail). 62-bit group: an
+    # accidental acceptance has probability 2^-60, so "accepted" is a failing input; a sample is also tied to the model.
+    big_specs = []
+    for fl in "BM":
+        for n in ((20, 37) if env.quick else (17, 20, 33, 37, 65, 130)):
+            big_specs.append({"ctx": "%s:%d" % (fl, P62), "n": n, "perm": None, "seed": "x:6232", "label": "x:6c"})
+    big_items = shuf.make_statements(env, big_specs)
+    big_live = shuf.prove(env, big_specs, big_items)
+    for sp in big_live:
+        ctx = sp["ctx"]; fl = ctx[0]; p, q, g = pq(ctx); n = sp["n"]
+        pf = wire.parse_proof(fl, wire.unhx(sp["_proof"]))
+        add(sp, "honest", False)
+        cases[-1]["_notie"] = True
+        for k in ("t_hats", "cs", "c_hats", "s_hats", "s_primes"):
+            for i in range(n):
+                m = copy.deepcopy(pf)
+                m[k][i] = (m[k][i] * g) % p if k in ("t_hats", "cs", "c_hats") else (m[k][i] + 1) % q
+                add(sp, "mut-%s[%d]/N=%d" % (k, i, n), True, proof=wire.hx(wire.proof_bytes(fl, m)))
+                cases[-1]["_notie"] = (i % 9 != n % 9) or not env.quick and n > 40
     if env.quick:
         # 2048-bit model evaluations cost ~10 s each: keep one case per mutation family there
         seen = set(); keep = []
@@ -144,7 +167,8 @@ def run(env):
                     cases.append(c)
     outs = env.harness(cases)
     for c, o in zip(cases, outs):
-        items.append((c, c["ctx"], "check_proof", c["args"], o))
+        if not c.get("_notie"):
+            items.append((c, c["ctx"], "check_proof", c["args"], o))
         if c["tag"] == "honest":
             if o is not True:
                 env.violation("honest proof rejected on %s: %s" % (c["ctx"], o), {"kind": "battery", "case": c, "out": o})
